@@ -629,6 +629,16 @@ int disasm_z80(
 
   snprintf(instruction, length, "???");
 
+  // The bytes behind a prefix that selected the (unknown) instruction are
+  // part of it.
+  if ((opcode16 & 0xdfff) == 0xddcb) { return 4; }
+  if (opcode16 == 0xdddd) { return 3; }
+
+  if (opcode == 0xcb || opcode == 0xdd || opcode == 0xed || opcode == 0xfd)
+  {
+    return 2;
+  }
+
   return 1;
 }
 
